@@ -3,6 +3,7 @@ import EaselModel.Miniapps.ReformatMsaLemmas
 import EaselModel.Miniapps.AliLemmas
 import EaselModel.Miniapps.Compstruct
 import EaselModel.Miniapps.Compalign
+import EaselModel.Miniapps.SmallLemmas
 /-! # C13 — property theorems about the reference functions of the miniapps (statements + glue only)
 
 The property has two halves. The half a model can express — "for valid inputs the core tools produce what their manual
@@ -695,5 +696,92 @@ example : (spansOf "stockholm" exSto2).map (fun recs => (ssiFind recs (str "b2")
 example : (spansOf "stockholm" exSto2).map indexable = some false := by decide +kernel
 
 end Afetch
+
+/-! ## the `--small` (streamed, Pfam-only) paths: `esl_msafile2_RegurgitatePfam` as esl-alimask / esl-alimanip call it
+    (`Miniapps/Small.lean`; stdout compared exactly, also with #=GF / #=GS / #=GR / #=GC / comment / blank lines and several records) -/
+section Small
+open EaselModel.Miniapps.Small
+
+/-- **any configuration** (keep list, skip list, column mask, nothing), any record of header + sequence lines + `//`: the output is the
+    header, exactly the lines of the wanted sequences in their order, names and spacing untouched and the text restricted to the kept
+    columns, then `//`; `nseq_read` counts every row, `nseq_regurged` the wanted ones; the rest of the file is left for the next call.
+    With a keep / skip list this is what the non-small `esl-alimanip --seq-k` / `--seq-r` is defined to do to the rows (sequence subset,
+    order kept); with a mask what `esl-alimask` is defined to do (column subset of every row). -/
+theorem small_regurgitate_rows (c : Cfg) (ea : Option Nat) (hdr : Line) (r0 : Row) (rs : List Row) (rest : List Line)
+    (hh : startsWith hdr "# STOCKHOLM 1." = true) (hnb : isBlankLine hdr = false)
+    (hwf : ∀ r ∈ r0 :: rs, r.WF) (hlen : ∀ r ∈ r0 :: rs, ea = none ∨ ea = some r.text.length)
+    (hdist : ∀ r ∈ rs, r.name ≠ r0.name) :
+    regurgitate c ea (hdr :: (r0 :: rs).map Row.line ++ "//".toList :: rest)
+      = .ok (hdr :: (wanted c (r0 :: rs)).map (Row.outLine c) ++ ["//".toList], (r0 :: rs).length, (wanted c (r0 :: rs)).length, rest) :=
+  regurgitate_rows c ea hdr r0 rs rest hh hnb hwf hlen hdist
+
+/-- nothing asked for: the record comes out byte for byte as it went in ("conversion … without changing names or residues") -/
+theorem small_regurgitate_identity (hdr : Line) (r0 : Row) (rs : List Row) (rest : List Line)
+    (hh : startsWith hdr "# STOCKHOLM 1." = true) (hnb : isBlankLine hdr = false)
+    (hwf : ∀ r ∈ r0 :: rs, r.WF) (hdist : ∀ r ∈ rs, r.name ≠ r0.name) :
+    regurgitate {} none (hdr :: (r0 :: rs).map Row.line ++ "//".toList :: rest)
+      = .ok (hdr :: (r0 :: rs).map Row.line ++ ["//".toList], (r0 :: rs).length, (r0 :: rs).length, rest) :=
+  regurgitate_identity hdr r0 rs rest hh hnb hwf hdist
+
+/-- one sequence line, any state: the state after it (first name remembered, counters, the emitted line) — the step the two theorems
+    above iterate; the two failure tests (`exp_alen`, "two seqs named …") are the hypotheses -/
+theorem small_regurgitate_seq_line (c : Cfg) (st : St) (r : Row) (h : r.WF)
+    (hlen : st.expAlen = none ∨ st.expAlen = some r.text.length) (hfirst : st.nread ≠ 0 → st.first ≠ some r.name) :
+    lineStep c st r.line = .cont (afterRow c st r) := lineStep_row c st r h hlen hfirst
+
+/-- a masked row is never longer than the row, and a keep list never invents a row -/
+theorem small_mask_shrinks (u : List Bool) (t : Line) : (shrink u t).length ≤ t.length := by
+  unfold shrink
+  have h1 := List.length_filter_le (fun x : Char × Bool => x.2) (t.zip u)
+  have h2 : (t.zip u).length ≤ t.length := by simp [List.length_zip]; omega
+  simp only [List.length_map]; omega
+
+theorem small_wanted_sublist (c : Cfg) (rows : List Row) : (wanted c rows).Sublist rows := by
+  unfold wanted; exact List.filter_sublist
+
+/-- **`esl-reformat --small --informat pfam afa` = the non-small reference on the same rows**, for every option setting
+    (`-d -l -n -r -u -x --gapsym --replace --rename`): the streamed two-pass path (`regurgitate_pfam_as_afa`, modelled line by line as
+    `reformatSmallAfa`) prints exactly `renderLines 60 (reformatAfa o recs)` — the text `esl-reformat afa` is specified to print
+    (same names or `--rename` numbering, residues converted in the same order of conversions, 60 per line). -/
+theorem small_reformat_afa_eq_reference (o : ReformatOpts) (hdr : Line) (r0 : Row) (rs : List Row) (rest : List Line)
+    (h1 : hdr.all isSpTab' = false) (h2 : startsWith hdr "# STOCKHOLM" = true) (h3 : startsWith hdr "# STOCKHOLM 1." = true)
+    (hwf : ∀ r ∈ r0 :: rs, r.WF) (hdist : ∀ r ∈ rs, r.name ≠ r0.name) :
+    reformatSmallAfa o (hdr :: (r0 :: rs).map Row.line ++ "//".toList :: rest)
+      = some (renderLines 60 (reformatAfa o ((r0 :: rs).map Row.toRec))) :=
+  reformatSmallAfa_eq_reference o hdr r0 rs rest h1 h2 h3 hwf hdist
+
+/-- non-vacuity: the header line of every Stockholm file satisfies the three hypotheses; `-r --rename nn` on the two-row record, and a
+    record WITH #=GS AC / DE lines (outside the theorem's rows-only shape: accession and description join the header line) -/
+example : ("# STOCKHOLM 1.0".toList.all isSpTab' = false) ∧ startsWith "# STOCKHOLM 1.0".toList "# STOCKHOLM" = true
+    ∧ startsWith "# STOCKHOLM 1.0".toList "# STOCKHOLM 1." = true := by decide
+example : reformatSmallAfa { rna := true, rename := some "nn".toList } ("# STOCKHOLM 1.0".toList :: [" s1   ACGT".toList, "s2 A-TT".toList, "//".toList])
+    = some [">nn.1".toList, "ACGU".toList, ">nn.2".toList, "A-UU".toList] := by decide +kernel
+example : reformatSmallAfa {} ["# STOCKHOLM 1.0".toList, "#=GS s1 AC X1".toList, "#=GS s1 DE a b".toList, "#=GS s2 DE c".toList, "s1 AC".toList, "s2 GU".toList, "//".toList]
+    = some [">s1 X1 a b".toList, "AC".toList, ">s2 c".toList, "GU".toList] := by decide +kernel
+
+/-- `esl-alistat --small` prints the non-small summary minus the three lines that need the sequences in memory -/
+theorem small_alistat_is_projection (ls : List (Bool × String)) :
+    renderSmall ls = renderAll (ls.filter (·.1)) := by
+  simp [renderSmall, renderAll]
+
+/-- non-vacuity: a two-row record; `--seq-k s2`, `--seq-r s2`, a mask keeping columns 2-3, and the failing case (the first name twice) -/
+def exRows : List Row := [⟨"s1".toList, 3, "ACGU".toList⟩, ⟨"s2".toList, 3, "A-GU".toList⟩]
+def exRec : List Line := "# STOCKHOLM 1.0".toList :: exRows.map Row.line ++ ["//".toList, "next".toList]
+example : ∀ r ∈ exRows, r.WF := by
+  intro r hr
+  simp [exRows] at hr
+  rcases hr with rfl | rfl <;> constructor <;> decide
+example : (regurgitate { keep := some ["s2".toList] } none exRec).toOption
+    = some (["# STOCKHOLM 1.0".toList, "s2    A-GU".toList, "//".toList], 2, 1, ["next".toList]) := by decide +kernel
+example : (regurgitate { skip := some ["s2".toList] } none exRec).toOption
+    = some (["# STOCKHOLM 1.0".toList, "s1    ACGU".toList, "//".toList], 2, 1, ["next".toList]) := by decide +kernel
+example : (regurgitate { useme := some [false, true, true, false] } (some 4) exRec).toOption
+    = some (["# STOCKHOLM 1.0".toList, "s1    CG".toList, "s2    -G".toList, "//".toList], 2, 2, ["next".toList]) := by decide +kernel
+example : (regurgitate {} none ("# STOCKHOLM 1.0".toList :: ["s1 AC".toList, "s1 GU".toList, "//".toList])).toOption = none := by decide +kernel
+/-- the SS_cons line loses the pairs the mask breaks before it is shrunk (nucleic alphabets only) -/
+example : (regurgitate { useme := some [false, true, true, true] } (some 4) ["# STOCKHOLM 1.0".toList, "s1 ACGU".toList, "#=GC SS_cons <..>".toList, "//".toList]).toOption
+    = some (["# STOCKHOLM 1.0".toList, "s1 CGU".toList, "#=GC SS_cons :::".toList, "//".toList], 1, 1, []) := by decide +kernel
+
+end Small
 
 end EaselModel.Props.C13
